@@ -450,9 +450,13 @@ func c06RunInBubble(t *testing.T, c c06Case, res *vfResult) {
 		case "arrive":
 			n.addPeer(op.P, vfProto(op.Proto), 0, nil)
 		case "depart":
+			var hadStream bool
+			n.eval(func() { _, hadStream = n.ps.peers[pid] })
 			n.killPeer(op.P, true)
+			// the router forgets a peer's IDONTWANTs when its outbound stream closes; a peer that never had one (its
+			// announcements came on its own stream only) is not "removed" by a departure
 			for k := range unwantedTTL {
-				if k[0] == string(pid) {
+				if k[0] == string(pid) && hadStream {
 					delete(unwantedTTL, k)
 				}
 			}
